@@ -336,16 +336,22 @@ func c13BatchRecordWriters(c *Ctx) error {
 	if strings.Join(callers, ",") != "BuildOutgoingTXBatch,initBridgeDataFromGenesis" {
 		return fmt.Errorf("callers of StoreBatch: %v, expected BuildOutgoingTXBatch and initBridgeDataFromGenesis", callers)
 	}
-	if strings.Join(setters, ",") != "StoreBatch,UpdateBatchGasEstimate" {
-		return fmt.Errorf("functions writing a batch record (store.Set with GetOutgoingTxBatchKey): %v, expected StoreBatch and UpdateBatchGasEstimate", setters)
+	if j := strings.Join(setters, ","); j != "StoreBatch,UpdateBatchGasEstimate" && j != "StoreBatch,UpdateBatchGasEstimate,refreshOpenBatchCheckpoints" {
+		return fmt.Errorf("functions writing a batch record (store.Set with GetOutgoingTxBatchKey): %v, expected StoreBatch, UpdateBatchGasEstimate (and refreshOpenBatchCheckpoints)", setters)
 	}
 	// one cache context for record and archive
 	bf, err := c.Parse("x/skyway/keeper/batch.go")
 	if err != nil {
 		return err
 	}
-	for _, fn := range []string{"BuildOutgoingTXBatch", "UpdateBatchGasEstimate"} {
+	if err := c13Reissue(c, bf); err != nil {
+		return err
+	}
+	for _, fn := range []string{"BuildOutgoingTXBatch", "UpdateBatchGasEstimate", "refreshOpenBatchCheckpoints"} {
 		fd := FindFunc(bf, "Keeper", fn)
+		if fd == nil && fn == "refreshOpenBatchCheckpoints" {
+			continue
+		}
 		if fd == nil || len(fd.Body.List) < 2 {
 			return fmt.Errorf("%s not found", fn)
 		}
@@ -772,8 +778,9 @@ func c13SignBytesChannels(c *Ctx) error {
 		"ToExternal:{i.BytesToSign}",
 		"ToExternalArray:{val.BytesToSign}",
 		"UpdateBatchGasEstimate:entity.BytesToSign=bts",
+		"refreshOpenBatchCheckpoints:batch.BytesToSign=bts", // absent on trees before the re-issue on activation
 	}
-	if strings.Join(writes, " | ") != strings.Join(wantWrites, " | ") {
+	if strings.Join(writes, " | ") != strings.Join(wantWrites, " | ") && strings.Join(writes, " | ") != strings.Join(wantWrites[:len(wantWrites)-1], " | ") {
 		return fmt.Errorf("writers of a BytesToSign field in x/skyway: %v, expected %v (a new writer publishes sign bytes the model does not know)", writes, wantWrites)
 	}
 	sort.Strings(handlers)
@@ -925,5 +932,141 @@ func c13ServesStored(c *Ctx, fd *ast.FuncDecl, field string) error {
 	if n == 0 {
 		return bad("no response carrying stored batches found")
 	}
+	return nil
+}
+
+// c13Reissue: skyway's handler of EVMActivatedChainEvent re-issues every open batch of the chain
+// for the id the event carries (refreshOpenBatchCheckpoints): the recomputed checkpoint is stored
+// as BytesToSign AND archived.  Absent function and absent call = a tree that does not re-issue
+// (false); any other shape is an error.  Also: where evm publishes the event.
+func c13Reissue(c *Ctx, bf *ast.File) error {
+	kf, err := c.Parse("x/skyway/keeper/keeper.go")
+	if err != nil {
+		return err
+	}
+	fd := FindFunc(bf, "Keeper", "refreshOpenBatchCheckpoints")
+	var sub *ast.CallExpr
+	for _, ce := range Calls(kf, "refreshOpenBatchCheckpoints") {
+		sub = ce
+	}
+	if fd == nil && sub == nil {
+		c.P("(* x/skyway/keeper: no re-issue of open batches when a compass is activated *)")
+		c.P("Definition redeploy_reissues_and_archives : bool := false.")
+		c.Info("redeploy_reissues_and_archives", false)
+		return nil
+	}
+	bad := func(why string) error {
+		return fmt.Errorf("refreshOpenBatchCheckpoints: %s", why)
+	}
+	if fd == nil || sub == nil {
+		return bad("function and its call from the EVMActivatedChain subscription must both exist")
+	}
+	if c13norm(c, sub) != "k.refreshOpenBatchCheckpoints(ctx,e.ChainReferenceID,string(e.SmartContractUniqueID))" {
+		return bad("called as " + c13norm(c, sub))
+	}
+	// the call sits in the handler subscribed to EVMActivatedChain
+	inSub := false
+	for _, ce := range Calls(kf, "Subscribe") {
+		if strings.HasPrefix(c13norm(c, ce.Fun), "eventbus.EVMActivatedChain()") && sub.Pos() > ce.Pos() && sub.End() < ce.End() {
+			inSub = true
+		}
+	}
+	if !inSub {
+		return bad("not called from the eventbus.EVMActivatedChain() subscription")
+	}
+	if len(fd.Type.Params.List) != 2 || len(fd.Type.Params.List[1].Names) != 2 || fd.Type.Params.List[1].Names[0].Name != "chainReferenceID" || fd.Type.Params.List[1].Names[1].Name != "compassID" {
+		return bad("parameters are not (c context.Context, chainReferenceID, compassID string)")
+	}
+	var loop *ast.RangeStmt
+	for _, st := range fd.Body.List {
+		if rs, ok := st.(*ast.RangeStmt); ok && c13norm(c, rs.X) == "batches" {
+			loop = rs
+		}
+	}
+	if loop == nil || loop.Value == nil || c13norm(c, loop.Value) != "batch" {
+		return bad("`for _, batch := range batches` not found")
+	}
+	srcOK := false
+	ast.Inspect(fd.Body, func(n ast.Node) bool {
+		if as, ok := n.(*ast.AssignStmt); ok && len(as.Lhs) >= 1 && c13norm(c, as.Lhs[0]) == "batches" && len(as.Rhs) == 1 && c13norm(c, as.Rhs[0]) == "k.GetOutgoingTxBatches(ctx)" {
+			srcOK = true
+		}
+		return true
+	})
+	if !srcOK {
+		return bad("batches is not k.GetOutgoingTxBatches(ctx)")
+	}
+	want := []string{
+		"ifbatch.ChainReferenceID!=chainReferenceID{continue}",
+		"bts,err:=batch.GetCheckpoint(compassID)",
+		"iferr!=nil{returnerr}",
+		"ifbytes.Equal(bts,batch.BytesToSign){continue}",
+		"batch.BytesToSign=bts",
+		"k.SetPastEthSignatureCheckpoint(ctx,bts)",
+		"externalBatch:=batch.ToExternal()",
+		"store.Set(types.GetOutgoingTxBatchKey(batch.TokenContract,batch.BatchNonce),k.cdc.MustMarshal(&externalBatch))",
+		"iferr:=k.DeleteBatchConfirms(ctx,batch);err!=nil{returnerr}",
+	}
+	if len(loop.Body.List) != len(want) {
+		return bad(fmt.Sprintf("loop body has %d statements, expected %d", len(loop.Body.List), len(want)))
+	}
+	for i, st := range loop.Body.List {
+		if got := c13norm(c, st); got != want[i] {
+			return bad(fmt.Sprintf("loop statement %d is `%s`, expected `%s`", i, got, want[i]))
+		}
+	}
+	c.P("(* x/skyway/keeper: on EVMActivatedChainEvent every open batch of the chain is re-issued for the event's id, stored and archived *)")
+	c.P("Definition redeploy_reissues_and_archives : bool := true.")
+	c.Info("redeploy_reissues_and_archives", true)
+	// evm side: the id in force is written by ActivateChainReferenceID only, which publishes the event on every nil return
+	ef, err := c.Parse("x/evm/keeper/keeper.go")
+	if err != nil {
+		return err
+	}
+	efs, err := c.ParseDir("x/evm/keeper")
+	if err != nil {
+		return err
+	}
+	var idWriters []string
+	for _, f := range efs {
+		if strings.Contains(c.Fset.Position(f.Pos()).Filename, "verif_hooks") {
+			continue
+		}
+		for _, d := range f.Decls {
+			fdd, ok := d.(*ast.FuncDecl)
+			if !ok || fdd.Body == nil {
+				continue
+			}
+			ast.Inspect(fdd.Body, func(n ast.Node) bool {
+				if as, ok := n.(*ast.AssignStmt); ok {
+					for _, l := range as.Lhs {
+						if se, ok := l.(*ast.SelectorExpr); ok && se.Sel.Name == "SmartContractUniqueID" {
+							idWriters = append(idWriters, fdd.Name.Name)
+						}
+					}
+				}
+				return true
+			})
+		}
+	}
+	if strings.Join(idWriters, ",") != "ActivateChainReferenceID" {
+		return fmt.Errorf("x/evm/keeper: SmartContractUniqueID is assigned in %v, expected ActivateChainReferenceID only", idWriters)
+	}
+	act := FindFunc(ef, "Keeper", "ActivateChainReferenceID")
+	if act == nil {
+		return fmt.Errorf("ActivateChainReferenceID not found")
+	}
+	pubs := Calls(act.Body, "Publish")
+	if len(pubs) != 1 || !strings.HasPrefix(c13norm(c, pubs[0]), "eventbus.EVMActivatedChain().Publish(ctx,eventbus.EVMActivatedChainEvent{ChainReferenceID:chainReferenceID,SmartContractUniqueID:smartContractUniqueID") {
+		return fmt.Errorf("ActivateChainReferenceID: publication of EVMActivatedChainEvent{ChainReferenceID: chainReferenceID, SmartContractUniqueID: smartContractUniqueID} not recognised")
+	}
+	stale := false
+	ast.Inspect(act.Body, func(n ast.Node) bool {
+		if is, ok := n.(*ast.IfStmt); ok && c13norm(c, is.Cond) == "chainInfo.GetActiveSmartContractID()>=smartContract.GetId()" && c13norm(c, is.Body) == "{returnnil}" {
+			stale = true
+		}
+		return true
+	})
+	c.P("Definition stale_activation_still_publishes_event : bool := %v.", stale)
 	return nil
 }
